@@ -24,4 +24,4 @@ require (
 	golang.org/x/sys v0.30.0 // indirect
 )
 
-replace github.com/flamego/flamego => /tmp/flamego-seed-vc9lg53f
+replace github.com/flamego/flamego => /tmp/flamego-seed-6manx45l
